@@ -220,6 +220,27 @@ func TestVfReceiver(t *testing.T) {
 	// consumer (the 100-slot error buffer fills), cancellation from outside at a random moment
 	nrand, _ := strconv.Atoi(os.Getenv("VF_RANDOM"))
 	rnd := rand.New(rand.NewSource(seed*7919 + 17))
+	// a long silence: hundreds / thousands of transient failures in a row (an idle socket polls every 100 ms: 10 s are 100 of them),
+	// then frames - every one of them is still processed, nothing is reported meanwhile
+	silences := []int{99, 100, 101, 128, 256, 1000}
+	if os.Getenv("VERIF_TIER") == "thorough" {
+		silences = append(silences, 5000, 20000)
+	}
+	for _, n := range silences {
+		for _, kinds := range [][]string{{"eagain"}, {"timeout"}, {"connreset"}, {"eagain", "timeout", "connreset"}} {
+			sc := &vfScenario{}
+			for j := 0; j < n; j++ {
+				sc.Script = append(sc.Script, kinds[j%len(kinds)])
+			}
+			sc.Script = append(sc.Script, "frame", "frameProcErr")
+			for j := 0; j < n; j++ {
+				sc.Script = append(sc.Script, kinds[(j+1)%len(kinds)])
+			}
+			sc.Script = append(sc.Script, "frame", "eof")
+			out.write(vfRunReceiver(sc, seed+int64(runs)))
+			runs++
+		}
+	}
 	classes := []string{"frame", "frameProcErr", "eagain", "timeout", "connreset", "unknown"}
 	for k := 0; k < nrand; k++ {
 		n := 1 + rnd.Intn(400)
